@@ -118,6 +118,10 @@ def run_c04(tier):
             acc.outcome("reconstruct(shipped tree) == pinned definitions")
         if reconstruct.error_codes_text(cur) != err:
             acc.report(violation("C04", "reconstruct", "C04/reconstruct/error-codes-differ-from-pin", "errors", {}, "pinned error codes", "differ", (0,)))
+    except (ImportError, AttributeError) as e:
+        # the inverse generator borrows codegen's naming tables; if a refactoring moved them this sub-check is
+        # skipped (the generator-vs-shipped and baseline comparisons above do not depend on it)
+        run.notes["reconstruct_subcheck"] = f"skipped: {e!r}"[:200]
     except reconstruct.Irregular as e:
         acc.report(violation("C04", "reconstruct", "C04/reconstruct/tree-not-regular", str(e).split(":")[0], {"why": str(e)},
                              "every (API, type) family is expressible as one message definition", str(e)[:400], (0,)))
